@@ -555,7 +555,10 @@ def write_evidence(fam, tier, seed, discharged, results, dropped, info, wall, un
     if not WRITE_EVIDENCE:  # --replay runs decide one obligation only and must not overwrite the evidence of the check
         return
     os.makedirs(os.path.join(VERIF, "evidence"), exist_ok=True)
-    obs = [(p, h) for p in fam.programs for h in p.harnesses if h.kind != "negative_control"]
+    obs_all = [(p, h) for p in fam.programs for h in p.harnesses if h.kind != "negative_control"]
+    # obligations that fail because of a LISTED known finding are reported separately, not as open proof obligations
+    kset = {k for k, _ in known}
+    obs = [(p, h) for p, h in obs_all if "%s/%s" % (p.key, h.name) not in kset]
     complete = [(p, h) for p, h in obs if not h.bounded]
     bounded = [(p, h) for p, h in obs if h.bounded]
     dset = set(discharged)
@@ -593,6 +596,7 @@ def write_evidence(fam, tier, seed, discharged, results, dropped, info, wall, un
         "negative_controls_failed_as_expected": controls_ok,
         "undecided": undecided,
         "known_findings": [k for k, _ in known],
+        "obligations_failing_under_listed_known_findings": len(obs_all) - len(obs),
         "repo_source_fingerprint": repo_fingerprint(),
         "exhaustive": False,
     }
